@@ -88,8 +88,10 @@ def run(tier, seed, replay=None):
         bases = [(rp["prog"], rp["name"], "accepted")]
         pairs = [(0, rp["kind"], {"shape": rp["shape"]}, rp["prog2"])]
 
-    base_obs = semrun.observe(env, [(p, n) for p, n, _ in bases], "native")
-    var_obs = semrun.observe(env, [(q, "%s/%s" % (bases[bi][1], kind)) for bi, kind, d, q in pairs], "native")
+    base_obs = semrun.observe(env, [(p, n) for p, n, _ in bases], "native",
+                              solo=[i for i, b in enumerate(bases) if b[2] != "accepted"])
+    var_obs = semrun.observe(env, [(q, "%s/%s" % (bases[bi][1], kind)) for bi, kind, d, q in pairs], "native",
+                             solo=[i for i, pr in enumerate(pairs) if bases[pr[0]][2] != "accepted"])
 
     def rec(ob):
         acc = ob["status"] in ("ran", "badrun")
